@@ -451,6 +451,15 @@ CONTRACTS = [
       raises={"ValueError": "order is not None and size is not None"},
       ensures={"dom": "all((k in result) == (k in E(self) and sel(self, k, order, size, up_to)) for k in Tuple)",
                "val": "all(implies(sel(self, k, order, size, up_to), result[k] == W(self, k)) for k in E(self))"}),
+    Contract(f"{CLS}.get_weights@list", FILE, [CLS, "get_weights"], self_cls=CLS, properties=["C01"],
+      params={"order": "Opt[Int]", "size": "Opt[Int]", "up_to": "Bool", "asdict": "Bool"}, fixed={"asdict": False},
+      result="Bag[Real]", pure=True,
+      requires={"wf": "wf(self)"},
+      raises={"ValueError": "order is not None and size is not None"},
+      # one entry per selected hyperedge, each the weight of a selected hyperedge (the order of the list is not modelled)
+      ensures={"len": "len(result) == card({k for k in E(self) if sel(self, k, order, size, up_to)})",
+               "members": "all(implies(count(result, x) >= 1, any(sel(self, k, order, size, up_to) and W(self, k) == x for k in E(self))) for x in Real)",
+               "covers": "all(implies(sel(self, k, order, size, up_to), count(result, W(self, k)) >= 1) for k in E(self))"}),
     # ------------------------------------------------------------------ degree (hypergraphx/measures/degree.py)
     Contract("degree[Hypergraph]", "hypergraphx/measures/degree.py", ["degree"], properties=["C01", "C08"],
       params={"hg": "Obj[Hypergraph]", "node": "Node", "order": "Opt[Int]", "size": "Opt[Int]"}, result="Int", pure=True,
